@@ -255,6 +255,17 @@ func (r *rw) post(n ast.Node) ast.Node {
 	case *ast.RangeStmt:
 		// ranging over a channel would block: only the known closed-channel loop is allowed
 	case *ast.FuncDecl:
+		if x.Body != nil && r.pkg == "cmem" && x.Name.Name == "Free" && x.Recv != nil {
+			// poison C memory before it is returned to the allocator, so that a use after free
+			// shows up as wrong bytes instead of going unnoticed: simrt.Poison(arr.Body, arr.Addr)
+			recv := x.Recv.List[0].Names[0].Name
+			call := &ast.ExprStmt{X: &ast.CallExpr{Fun: r.simSel("Poison"), Args: []ast.Expr{
+				&ast.SelectorExpr{X: ast.NewIdent(recv), Sel: ast.NewIdent("Body")},
+				&ast.SelectorExpr{X: ast.NewIdent(recv), Sel: ast.NewIdent("Addr")},
+			}}}
+			x.Body.List = append([]ast.Stmt{call}, x.Body.List...)
+			r.st.yields++
+		}
 		if x.Body != nil && r.wantYield(x) {
 			r.st.yields++
 			call := &ast.ExprStmt{X: &ast.CallExpr{Fun: r.simSel("Yield")}}
